@@ -911,21 +911,27 @@ RUST_SUFFIXES = ("u8", "u16", "u32", "u64", "u128", "usize", "i8", "i16", "i32",
 RUST_LITERAL_TYPES = ("integer_literal", "float_literal")
 
 
+def is_type_suffix_of(s, text):
+    return text.endswith(s) and not (s.startswith("f") and text.startswith("0x"))
+
+
 @contract(RA + "RustMagicNumberAnalyzer._strip_type_suffix", props=["C02"], types=dict(self=RustAnalyzerT, text=Str),
           returns=Str)
 class RustStripTypeSuffix:
     def ensures_cuts_one_trailing_type_suffix(self, text, result):
-        # code-level shape (whether the cut characters really ARE a type suffix of the literal -- `0x1f32` -- is
-        # checked against the language by the bounded stand-in c02-literal-parsing)
-        return (any(text.endswith(s) for s in RUST_SUFFIXES) or result == text) and \
-            (result == text or any(text == result + s for s in RUST_SUFFIXES))
+        # a trailing type suffix is cut -- except f32/f64 after a hex literal, where those characters are digits
+        # (`0x1f32`); at most one suffix of the list can match, so this determines the result (the agreement with the
+        # language's literal values is checked by the bounded stand-in c02-literal-parsing)
+        return implies(not any(is_type_suffix_of(s, text) for s in RUST_SUFFIXES), result == text) and \
+            (result == text or any(text == result + s and is_type_suffix_of(s, text) for s in RUST_SUFFIXES)) and \
+            implies(any(is_type_suffix_of(s, text) for s in RUST_SUFFIXES), len(result) < len(text))
 
 
 def _rust_code_value(kind, text):
     """Native mirror of RustMagicNumberAnalyzer._extract_numeric_value on (node type, literal text), ints only."""
     cleaned = text
     for s in RUST_SUFFIXES:
-        if cleaned.endswith(s):
+        if cleaned.endswith(s) and not (s.startswith("f") and text.startswith("0x")):
             cleaned = cleaned[: -len(s)]
             break
     cleaned = cleaned.replace("_", "")
@@ -933,7 +939,7 @@ def _rust_code_value(kind, text):
         if kind == "float_literal":
             v = float(cleaned)
             return int(v) if v == int(v) else None
-        return int(cleaned, 0)
+        return int(cleaned, 10) if cleaned.isdigit() else int(cleaned, 0)
     except (ValueError, TypeError, OverflowError):
         return None
 
@@ -1481,25 +1487,10 @@ def rust_literals(maxlen):
     return out
 
 
-# ---- the genuine defects found by the enumeration (known findings), described by exact predicates on the literal text
-# (JS/TS: the three former findings -- hex literals with an e digit, BigInt literals, legacy octal-like literals -- are
-# repaired; every JS grammar class is checked by its plain property-level obligation, there is no adjusted variant)
-
-
-def rust_known_defect(cls, kind, text):
-    if cls == "hex-integer" and text.endswith(RUST_FLOAT_SUFFIXES):
-        rest = text[:-3].replace("_", "")
-        return ("C02-rust-hex-f32-suffix", int(rest, 16) if len(rest) > 2 else None)
-    if cls == "decimal-integer":
-        body = text
-        for suf in RUST_INT_SUFFIXES + RUST_FLOAT_SUFFIXES:
-            if body.endswith(suf):
-                body = body[: -len(suf)]
-                break
-        body = body.replace("_", "")
-        if len(body) > 1 and body[0] == "0" and body.strip("0") != "":
-            return ("C02-rust-leading-zero-dropped", None)
-    return None
+# The genuine defects this enumeration found (TS/JS: hex literals with an e digit, BigInt, legacy octal; Rust: f32/f64
+# cut from hex literals, leading-zero decimal bodies) are repaired: every grammar class of both languages is checked by
+# its plain property-level obligation. A language with recorded defect classes would pass a `known(cls, kind, text) ->
+# (finding id, recorded code value) | None` predicate to run() and get one finding-adjusted obligation in addition.
 
 
 def _same_number(a, b):
@@ -1575,7 +1566,7 @@ def literal_parsing_bounded(ctx):
         [(c, "number", t, v) for c, t, v in js_literals(maxlen)],
         lambda kind, text: ts._extract_numeric_value(node(kind, text)), None)
     run("Rust", "RustMagicNumberAnalyzer._extract_numeric_value", rust_literals(maxlen),
-        lambda kind, text: rs._extract_numeric_value(node(kind, text)), rust_known_defect)
+        lambda kind, text: rs._extract_numeric_value(node(kind, text)), None)
 
     # _is_uppercase_constant: "UPPERCASE" = has a letter and every letter is upper case
     import itertools
